@@ -55,6 +55,11 @@ type Controller struct {
 	fired   *Crash
 	writeNo int // ordinal of WriteFile calls since Begin
 
+	failing bool // a fault is placed
+	failAt  int
+	failErr error
+	failed  string // label of the step that was made to fail since Begin
+
 	owner   uint64 // goroutine that called Begin: the "process" under test
 	fmu     sync.Mutex
 	foreign atomic.Int64 // steps performed by any other goroutine
@@ -97,11 +102,22 @@ func (c *Controller) ForeignSteps() (int64, string) {
 // of the code under test whose steps are to be numbered from 0.
 func (c *Controller) Begin() {
 	c.n, c.armed, c.fired, c.writeNo = 0, false, nil, 0
+	c.failing, c.failed = false, ""
 	c.owner = goid()
 }
 
 // Arm places one crash: before (after=false) or after (after=true) step `at`.
 func (c *Controller) Arm(at int, after bool) { c.armed, c.at, c.after = true, at, after }
+
+// Fail places one fault: step `at` is NOT performed and returns err instead
+// (an environment failure such as EIO, ENOSPC, EPERM). It still counts as a
+// step, the observer is called for it, and a crash may be placed before or
+// after it. The shim's multi-step calls stop at their first failing step, as
+// the real calls do, so the remaining sub-steps are skipped.
+func (c *Controller) Fail(at int, err error) { c.failing, c.failAt, c.failErr = true, at, err }
+
+// Failed returns the label of the step the placed fault hit since Begin, or "".
+func (c *Controller) Failed() string { return c.failed }
 
 // Steps is the number of steps performed since Begin.
 func (c *Controller) Steps() int { return c.n }
@@ -116,7 +132,8 @@ func (c *Controller) Fired() *Crash { return c.fired }
 // labels do not depend on file names (map iteration order).
 func (c *Controller) NextWriteOrdinal() int { c.writeNo++; return c.writeNo }
 
-// Step performs one filesystem step with its two crash points.
+// Step performs one filesystem step with its two crash points (or, if a fault
+// is placed on it, fails it without performing it).
 func (c *Controller) Step(label, path string, do func() error) error {
 	if c.owner != 0 && goid() != c.owner {
 		// a background goroutine of the code under test: perform the step, but
@@ -134,7 +151,14 @@ func (c *Controller) Step(label, path string, do func() error) error {
 		c.fired = &Crash{Step: idx, After: false, Label: label}
 		panic(c.fired)
 	}
-	err := do()
+	var err error
+	if c.failing && c.failAt == idx {
+		c.failing = false
+		c.failed = label
+		err = c.failErr
+	} else {
+		err = do()
+	}
 	c.n++
 	c.total++
 	if c.Observe != nil {
